@@ -130,7 +130,7 @@ func runC02driver(c *ctx) {
 	}
 	outs := make([]out, len(cases))
 	var wg sync.WaitGroup
-	sem := make(chan struct{}, 16)
+	sem := make(chan struct{}, vlib.Conc(16))
 	for i := range cases {
 		wg.Add(1)
 		sem <- struct{}{}
